@@ -77,6 +77,7 @@ type Exec struct {
 	udp *udpState
 	blockedForever bool
 	watchdogLabel string
+	curFrame      *frame // the frame of the call being dispatched (for stubs that call back into the program)
 	hmacApps map[string][]*Term
 	curPos string
 	randLog [][]*Term
